@@ -153,10 +153,12 @@ def attributes : Nat → Bytes → List (Bytes × Bytes) → L (List (Bytes × B
       else
         let name := b'.takeWhile isNameChar
         if !isName name then ill "attribute name"
-        else if acc.any (·.1 == name) then ill "duplicate attribute"
         else
           match skipS (b'.drop name.length) with
           | 61 :: r =>
+            -- (the name is compared with the earlier ones only once it is known to BE the name: in `b='x' b!="1"` the
+            -- second attribute is not a second `b` but a malformed name — clause attribute-name)
+            if acc.any (·.1 == name) then ill "duplicate attribute" else
             match skipS r with
             | q :: v =>
               if q = 34 || q = 39 then
